@@ -85,6 +85,7 @@ type Header struct {
 	Views     [][6]int          `json:"views"`
 	Paints    map[string]PaintJ `json:"paints"`
 	Grads     []string          `json:"grads"`
+	RGrads    []string          `json:"rgrads"`
 	Ells      []EllJ            `json:"ells"`
 	Dashes    [][]float64       `json:"dashes"`
 	JoinLimit []int             `json:"joinlimit"`
@@ -291,6 +292,16 @@ func paint(h *Header, name string) canvas.Paint {
 	}
 	pm := h.Paints[name].Pm
 	col := color.RGBA{uint8(pm[0]), uint8(pm[1]), uint8(pm[2]), uint8(pm[3])}
+	for _, g := range h.RGrads {
+		if g == name { // a radial gradient (concentric circles around the page centre) whose stops all have the colour
+			ctr := canvas.Point{X: float64(h.W) / 2, Y: float64(h.H) / 2}
+			rg := canvas.NewRadialGradient(ctr, 0, ctr, float64(h.W+h.H))
+			rg.Add(0.0, col)
+			rg.Add(0.5, col)
+			rg.Add(1.0, col)
+			return canvas.Paint{Gradient: rg}
+		}
+	}
 	for _, g := range h.Grads {
 		if g == name { // a linear gradient across the page whose stops all have the colour
 			lg := canvas.NewLinearGradient(canvas.Point{X: 0, Y: 0}, canvas.Point{X: float64(h.W), Y: 0})
